@@ -16,9 +16,13 @@ package tally
 import (
 	"fmt"
 	"os"
+	"runtime"
 	"sort"
 	"strings"
+	"sync"
+	"sync/atomic"
 	"testing"
+	"time"
 )
 
 type vdC05Op struct {
@@ -184,4 +188,69 @@ func TestVerifDriverC05(t *testing.T) {
 	} else {
 		t.Fatalf("%d failures", fails)
 	}
+}
+
+// Concurrent section (fall-back and thorough tier only: VERIF_DRIVER_REASON != quick).
+// Many more goroutines than processors (so that they are preempted inside Subscope and
+// share per-processor caches) derive scopes for DISTINCT, not yet registered identities
+// in one shard; every returned scope must carry exactly the tags it was asked for, during
+// the race and when each identity is asked for again afterwards, and asking again must
+// return the same scope.  Whatever the interleaving, different identities never merge.
+// BOUNDED: rounds of 8*GOMAXPROCS goroutines x 1000 identities for 5 s; a
+// schedule-dependent merge may need more to show.
+func TestVerifDriverC05Concurrent(t *testing.T) {
+	if r := os.Getenv("VERIF_DRIVER_REASON"); r == "" || r == "quick" {
+		fmt.Println("DRIVER-RESULT: ok C05 concurrent section skipped in the quick tier")
+		return
+	}
+	var fails int64
+	workers := 8 * runtime.GOMAXPROCS(-1)
+	const perRound = 1000
+	deadline := time.Now().Add(5 * time.Second)
+	rounds := 0
+	for round := 0; atomic.LoadInt64(&fails) == 0 && time.Now().Before(deadline); round++ {
+		rounds++
+		shards := uint(1 + round%2*2)
+		root := newRootScope(ScopeOptions{Tags: map[string]string{"svc": "x"}, OmitCardinalityMetrics: true, registryShardCount: shards}, 0)
+		check := func(when, id string, s Scope) {
+			if have := s.(*scope).tags["id"]; have != id || len(s.(*scope).tags) != 2 {
+				if atomic.AddInt64(&fails, 1) <= 10 {
+					fmt.Printf("DRIVER-FAIL: concurrent derivation (%s): shards=%d: Tagged(id=%s) returned the scope with tags %v\n", when, shards, id, s.(*scope).tags)
+				}
+			}
+		}
+		got := make([][]Scope, workers)
+		var wg sync.WaitGroup
+		for w := 0; w < workers; w++ {
+			wg.Add(1)
+			got[w] = make([]Scope, perRound)
+			go func(w int) {
+				defer wg.Done()
+				for i := 0; i < perRound; i++ {
+					id := fmt.Sprintf("%04d-%04d-%06d", round, w, i)
+					s := root.Tagged(map[string]string{"id": id})
+					got[w][i] = s
+					check("during the race", id, s)
+				}
+			}(w)
+		}
+		wg.Wait()
+		for w := 0; w < workers; w++ {
+			for i := 0; i < perRound; i++ {
+				id := fmt.Sprintf("%04d-%04d-%06d", round, w, i)
+				s := root.Tagged(map[string]string{"id": id})
+				check("asked again afterwards", id, s)
+				if s != got[w][i] {
+					if atomic.AddInt64(&fails, 1) <= 10 {
+						fmt.Printf("DRIVER-FAIL: concurrent derivation: shards=%d: asking again for id=%s returned a different scope\n", shards, id)
+					}
+				}
+			}
+		}
+		root.Close()
+	}
+	if fails > 0 {
+		t.Fatalf("%d failures", fails)
+	}
+	fmt.Printf("DRIVER-RESULT: ok C05 concurrent section: %d rounds\n", rounds)
 }
